@@ -469,4 +469,10 @@ def run(ck):
                  "both the reference and the query side have an unpaired list", found=str(sorted(sides)))
     numbering(ck, "C12.4")
     dedupe(ck, "C12.5")
+    ck.clause("C12.8", "the quantity de-duplication minimises is the exact offset: AlignedPair.distance = |queryShift| (as C04.4) - a "
+                       "saturated / rounded distance ties candidates that lie at different distances and the first one in label order wins")
+    if ck.wants("C12.8"):
+        from ..report import RuleView as _RV128
+        from .c04 import formula as _f128
+        _f128(_RV128(ck, {"C04.4": "C12.8"}, only_constructs=("AlignedPair.distance",)))
     absolute_positions(ck, "C12.6")
